@@ -257,6 +257,7 @@ func (w *Worker) chanRecv(fr *frame, ch *Chan, commaOk bool) value {
 			k := w.choose(len(snd))
 			g := snd[k]
 			g.sent = true
+			w.nondets = append(w.nondets, NondetRec{Name: "delivery", Kind: "sched", Val: g.id})
 			return ret(g.sendVal, true)
 		}
 		if ch.closed {
